@@ -195,6 +195,24 @@ def encodeMag (c : Cfg) (m : Rat) : Nat :=
       let f := ((m / pow2 e - 1) * ((2 ^ fb : Nat) : Rat)).floor.toNat
       ((e + c.bias).toNat <<< fb) + f
 
+/-- X (positive) is a value of the configuration: rounding does not change it -/
+def exactlyRepresentable (c : Cfg) (X : Rat) : Bool :=
+  match roundMag c X with
+  | some m => m == X
+  | none => false
+
+/-- input class of the known defect D4 (`cfloat.convert.sat_nosup_cusp`): X lies at or below the binade of the
+    all-ones exponent and its (unbounded-exponent) RNE lands on the value the inf encoding would have as a
+    supernormal, (2 − 2/2^fbits)·2^top, or carries out of that binade to 2^(top+1) (the code then writes
+    INF_ENCODING). With fbits ≥ 2 both values can only be reached from the binade of the all-ones exponent;
+    with fbits = 1 the first one is 2^top itself and is also reached by a carry out of the binade below. -/
+def roundsToInfPattern (c : Cfg) (X : Rat) : Bool :=
+  let u := ulpAt c X
+  let top : Int := (c.emax : Int) - c.bias
+  let R := (rne (X / u) : Rat) * u
+  decide (floorLog2 X ≤ top) &&
+    (R == (2 - 2 / ((2 ^ c.fbits : Nat) : Rat)) * pow2 top || R == pow2 (top + 1))
+
 def maxFiniteEnc (c : Cfg) : Nat := encodeMag c (maxFinite c)
 def infEnc (c : Cfg) : Nat := 2 ^ (c.nbits - 1) - 2
 def signBit (c : Cfg) (s : Bool) : Nat := if s then 2 ^ (c.nbits - 1) else 0
